@@ -323,7 +323,7 @@ def worker(part, tier, cache_size):
     lexsym.install_hash_abstraction()
     out = dict(part=part, paths=0, decisions=0, queries=0, solver_time=0.0, bad=[], exhausted=True,
                samples=[], hash_checks=0, units=0)
-    budget = 60 if tier == 'quick' else 400
+    budget = 200 if tier == 'quick' else 900
 
     def absorb(ex, paths, bad, label, extra=None):
         st = ex.stats()
